@@ -8,7 +8,23 @@ import (
 
 const dataPath = "data"
 
+// checkDBName refuses names that are not a single path element. A database
+// lives in the directory data/<name>; a name with a separator or a dot
+// element would address another directory (or the same one a second time).
+func checkDBName(db string) error {
+	if db == "" {
+		return ErrDBNotSelected
+	}
+	if db == "." || db == ".." || strings.ContainsAny(db, "/\\\x00") || strings.ContainsRune(db, filepath.Separator) {
+		return ErrDBNameInvalid
+	}
+	return nil
+}
+
 func makeDBDir(db string) error {
+	if err := checkDBName(db); err != nil {
+		return err
+	}
 	err := os.MkdirAll(filepath.Join(dataPath, strings.ToLower(db)), 0755)
 	if !os.IsExist(err) {
 		return err
@@ -39,8 +55,8 @@ func listDBs() ([]string, error) {
 }
 
 func dbFilePath(db string) (string, bool, error) {
-	if db == "" {
-		return "", false, ErrDBNotSelected
+	if err := checkDBName(db); err != nil {
+		return "", false, err
 	}
 
 	path := filepath.Join(dataPath, strings.ToLower(db), "tbl")
@@ -54,8 +70,8 @@ func dbFilePath(db string) (string, bool, error) {
 }
 
 func walFilePath(db string) (string, bool, error) {
-	if db == "" {
-		return "", false, ErrDBNotSelected
+	if err := checkDBName(db); err != nil {
+		return "", false, err
 	}
 
 	path := filepath.Join(dataPath, strings.ToLower(db), "wal")
